@@ -60,8 +60,10 @@ def make(n, nrow, strat, hdr, fn, src, pl, pb_first, pb_last, bb_first, bb_last,
         body.update(user)
     sec = {"df": {"cols": cols}, "body": body}
     nd = len(R.displayed_columns(sec))
-    sec["headers"] = {"default": "default", "none": "none", "explicit": [{"text": [f"@H0.{c}" for c in range(nd)]}],
+    sec["headers"] = {"default": "default", "none": "none", "explicit": [{"text": [f"@H0.{c}" for c in range(nd)]}], "nocolheader": "default",
                       "multi": [{"text": ["@H0.0"], "col_rel_width": [1]}, {"text": [f"@H1.{c}" for c in range(nd)]}]}[hdr]
+    if hdr == "nocolheader":
+        body["as_colheader"] = False      # default header object, but no header row is rendered
     page = {"nrow": nrow}
     if pb_first is not None:
         page["border_first"] = pb_first
@@ -106,7 +108,7 @@ def _case(draw):
         for name in ("border_left", "border_right"):
             if draw(st.integers(0, 9)) < 3:
                 user[name] = [draw(style) for _ in range(ncol + off)]
-    rec = make(n, nrow, strat, draw(st.sampled_from(["default", "explicit", "multi", "none"])), draw(st.sampled_from([None, "table", "para"])),
+    rec = make(n, nrow, strat, draw(st.sampled_from(["default", "explicit", "multi", "none", "nocolheader"])), draw(st.sampled_from([None, "table", "para"])),
                draw(st.sampled_from([None, "table", "para"])),
                (draw(st.sampled_from(["first", "last", "all"])), draw(st.sampled_from(["first", "last", "all"]))) if draw(st.booleans()) else None,
                opt(), opt(), opt(), opt(), ncol=ncol, user=user, pbh=draw(st.sampled_from([None, None, True, False])))
